@@ -165,7 +165,7 @@ def run(ctx):
     ctx.note("vacuity_witnesses_reached", len(wit))
     if not quick:
         # (2) the larger configuration: unknown peer, wait 0.5 s, three modes (safety)
-        bconsts = dict(base, Waits={10})
+        bconsts = dict(base, Waits={10}, Modes=set(MODES))      # "refresh" and the per-call waits are in run (1)
         bcfg = tlc.write_cfg(os.path.join(ctx.scratch, "agree_big.cfg"), spec="Spec", constants=bconsts, invariants=INVARIANTS,
                              deadlock=False)
         bres = tlc.check_model("ControlAgree", bcfg, ctx.scratch, timeout=6000)
